@@ -693,3 +693,50 @@ func c04EmptyArgs(x *X) {
 func init() {
 	register(&Scenario{Prop: "C04", Name: "c04/empty-arguments", Quick: []Bound{{0, 0}, {1, 0}}, Thorough: []Bound{{2, 0}}, Body: c04EmptyArgs, BudgetQ: 15, MinHB: 1})
 }
+
+// a service name is registered again with another receiver while the server runs (a deployment
+// swaps an implementation): requests received afterwards are executed by the receiver registered
+// last, once each; calls to other methods in between do not matter.
+func c04Reregister(x *X) {
+	mode := x.Choose(3)
+	between := x.Choose(3) // calls between the first call and the re-registration: none / the same method / another one
+	so := srvOpts{bufSize: 64}
+	switch mode {
+	case 1:
+		so.pipelining = true
+	case 2:
+		so.directIO = true
+	}
+	f := newFixture(so, cliOpts{bufSize: 64})
+	w2 := newWorld()
+	c1 := newUcall(1, 0, 20, formCall)
+	c1.issue(f.conn)
+	switch between {
+	case 1:
+		c := newUcall(2, 0, 21, formCall)
+		c.issue(f.conn)
+	case 2:
+		c := newUcall(2, 0, 21, formCall)
+		c.method = "Svc.Eco1"
+		c.issue(f.conn)
+	}
+	f.srv.RegisterName("Svc", &Svc{w2})
+	vs.Quiesce()
+	for i := 0; i < 3; i++ {
+		c := newUcall(byte(0x11+i), 0, 22+i, formCall)
+		c.issue(f.conn)
+		switch {
+		case c.err != nil || !eqBytes(c.reply, c.want()):
+			x.Fail("C04/call-failed/re-register", "call %d after the re-registration: err=%v", c.tag, c.err)
+		case w2.execs[c.tag] != 1 || f.w.execs[c.tag] != 0:
+			x.Fail(fmt.Sprintf("C04/executions=%d/re-register", w2.execs[c.tag]), "the service name was registered again with another receiver; request %d, received afterwards, was executed %d times by the receiver registered last and %d times by the replaced one (server mode %d, calls before the swap: pattern %d)", c.tag, w2.execs[c.tag], f.w.execs[c.tag], mode, between)
+		}
+	}
+	x.Outcome("mode=%d between=%d", mode, between)
+	f.conn.Close()
+	vs.Quiesce()
+}
+
+func init() {
+	register(&Scenario{Prop: "C04", Name: "c04/service-registered-again", Quick: []Bound{{0, 0}, {1, 0}}, Thorough: []Bound{{2, 0}}, Body: c04Reregister, BudgetQ: 10})
+}
